@@ -17,6 +17,7 @@ import (
 //
 //	reset nat|rev|div10
 //	mk <m> new|zero | copy <d> <s>
+//	setn <m> <k0>,<step>,<n>,<v0> | deleten <m> <k0>,<step>,<n>     (bulk forms: n single calls, one observation)
 //	set <m> <k> <v> | delete <m> <k> | clear <m> | get|getok <m> <k> | len|keys|string <m>
 //	first|last <i> <m> | seek <i> <m> <k> | itseek <i> <k> | itnext|itprev|itread <i>
 //	  -> r=<result>;len=;keys=;str=;its=<i:valid:key:value of the iterators on this map>;all=<m:Len:Get(k) through every register>
@@ -36,6 +37,7 @@ type c04 struct {
 	its  map[int]*c04it
 	next int
 	st   *Stats
+	lg   lgTrack
 }
 
 func c04cmp(mode string) func(a, b int) int {
@@ -77,6 +79,7 @@ func (r *c04) obs(res string, m omap.Map[int, int], id, k int) string {
 	for _, reg := range regs {
 		all = append(all, fmt.Sprintf("%d:%d:%d", reg, r.maps[reg].Len(), r.maps[reg].Get(k)))
 	}
+	r.lg.see(r.st, "omap", m.Len())
 	return fmt.Sprintf("r=%s;len=%d;keys=%s;str=%s;its=%s;all=%s", res, m.Len(), fmtInts(m.Keys()), m.String(),
 		strings.Join(its, " "), strings.Join(all, " "))
 }
@@ -113,6 +116,7 @@ func (r *c04) Exec(op []string) string {
 		r.zero = map[int]bool{}
 		r.its = map[int]*c04it{}
 		r.next = 0
+		r.lg.reset()
 		return "-"
 	case "mk":
 		reg := atoi(op[1])
@@ -185,6 +189,20 @@ func (r *c04) Exec(op []string) string {
 		}
 		return r.obs(res, it.m, it.id, k)
 	}
+	// the numbers of a bulk line are ONE comma-separated token (the shrinker of tools/check.py drops tokens inside
+	// lines of more than five)
+	var bulk []int
+	if op[0] == "setn" || op[0] == "deleten" {
+		if len(op) != 3 {
+			return "bad-op"
+		}
+		for _, t := range strings.Split(op[2], ",") {
+			bulk = append(bulk, atoi(t))
+		}
+		if len(bulk) != map[string]int{"setn": 4, "deleten": 3}[op[0]] {
+			return "bad-op"
+		}
+	}
 	// map operations: <op> <m> … or first|last|seek <i> <m> …
 	mi := 1
 	if op[0] == "first" || op[0] == "last" || op[0] == "seek" {
@@ -215,6 +233,32 @@ func (r *c04) Exec(op []string) string {
 		}
 		r.staleAll(id)
 		return r.obs(fmtBool(isNew), m, id, k)
+	case "setn":
+		// bulk form of set for the large cases, `setn m k0,d,n,v0`: n single calls Set(k0+i*d, v0+i); the result is
+		// the string of their results
+		k0, d, n, v0 := bulk[0], bulk[1], bulk[2], bulk[3]
+		var sb strings.Builder
+		for i := 0; i < n; i++ {
+			sb.WriteString(fmtBool(m.Set(k0+i*d, v0+i))) // panics on the zero Map
+			r.lg.see(r.st, "omap", m.Len())
+		}
+		r.staleAll(id)
+		return r.obs(sb.String(), m, id, 0)
+	case "deleten":
+		// bulk form of delete, `deleten m k0,d,n`: n single calls Delete(k0+i*d)
+		k0, d, n := bulk[0], bulk[1], bulk[2]
+		var sb strings.Builder
+		any := false
+		for i := 0; i < n; i++ {
+			was := m.Delete(k0 + i*d)
+			any = any || was
+			sb.WriteString(fmtBool(was))
+			r.lg.see(r.st, "omap", m.Len())
+		}
+		if any {
+			r.staleAll(id)
+		}
+		return r.obs(sb.String(), m, id, 0)
 	case "delete":
 		k := atoi(op[2])
 		was := m.Delete(k)
@@ -404,7 +448,234 @@ func (x *c04gen) mk(reg int, zero bool) {
 	x.next++
 }
 
+// run emits Set (del false) or Delete calls for plan[a:b]: maximal arithmetic runs of three or more keys as one
+// bulk line when bulk is set, single calls otherwise.
+func (x *c04gen) run(reg int, plan []int, a, b int, del, bulk bool) {
+	for a < b {
+		e := a + 1
+		if bulk && e < b {
+			d := plan[e] - plan[a]
+			for e < b && plan[e]-plan[e-1] == d {
+				e++
+			}
+			if e-a >= 3 {
+				id := x.ids[reg]
+				if del {
+					x.emit("deleten %d %d,%d,%d", reg, plan[a], d, e-a)
+				} else {
+					x.emit("setn %d %d,%d,%d,%d", reg, plan[a], d, e-a, x.nv+1)
+					x.nv += e - a
+				}
+				for _, k := range plan[a:e] {
+					i, ok := x.find(id, k)
+					switch {
+					case del && ok:
+						x.keys[id] = append(x.keys[id][:i:i], x.keys[id][i+1:]...)
+					case !del && !ok:
+						ks := append(x.keys[id], 0)
+						copy(ks[i+1:], ks[i:])
+						ks[i] = k
+						x.keys[id] = ks
+					}
+				}
+				x.edited(id)
+				a = e
+				continue
+			}
+		}
+		if del {
+			x.del(reg, plan[a])
+		} else {
+			x.set(reg, plan[a])
+		}
+		a++
+	}
+}
+
+// c04plan returns n distinct keys (multiples of step, offset 1) in the given order: 0 ascending, 1 descending,
+// 2 four interleaved stripes (arithmetic runs, but far from sorted), 3 outside-in, 4 random.
+func c04plan(g *G, n, step, order int) []int {
+	ks := make([]int, 0, n)
+	key := func(i int) int { return step * (2*i + 1) }
+	switch order {
+	case 0:
+		for i := 0; i < n; i++ {
+			ks = append(ks, key(i))
+		}
+	case 1:
+		for i := n - 1; i >= 0; i-- {
+			ks = append(ks, key(i))
+		}
+	case 2:
+		for _, r := range []int{0, 2, 1, 3} {
+			for i := r; i < n; i += 4 {
+				ks = append(ks, key(i))
+			}
+		}
+	case 3:
+		for lo, hi := 0, n-1; lo <= hi; lo, hi = lo+1, hi-1 {
+			ks = append(ks, key(lo))
+			if hi != lo {
+				ks = append(ks, key(hi))
+			}
+		}
+	default:
+		for _, i := range g.R.Perm(n) {
+			ks = append(ks, key(i))
+		}
+	}
+	return ks
+}
+
+// genC04Large: maps grown past 1024 and 4096 keys (quick: 1030 and 4100 in bulk, 300 one Set at a time; thorough
+// up to 8200) in ascending, descending, striped, outside-in or random key order, looked at through iterators at
+// far positions, drained by Delete alone to a handful (observing at every threshold, and after every Delete from
+// 40 entries down), regrown, drained below a quarter, regrown past the first size, cleared, used again — through
+// the register and through a copy of the Map.
+func genC04Large(g *G) {
+	type lc struct {
+		n    int
+		bulk bool
+	}
+	cs := []lc{{1030, true}, {300, false}, {4100, true}, {130, true}}
+	if g.Thorough() {
+		cs = append(cs, lc{1025, true}, lc{2050, true}, lc{4097, true}, lc{520, true}, lc{600, false}, lc{260, true}, lc{65, false}, lc{8200, true})
+	}
+	off := g.Intn(12)
+	for ci, c := range cs {
+		N := c.n
+		x := &c04gen{g: g, keys: map[int][]int{}, zero: map[int]bool{}, ids: map[int]int{}, its: map[int]int{}, old: map[int]bool{}}
+		x.mode = []string{"nat", "rev", "nat", "div10"}[(ci+off)%4]
+		x.cmp = c04cmp(x.mode)
+		step := 1
+		if x.mode == "div10" {
+			step = 10
+		}
+		x.span = step * (2*N + 2)
+		x.emit("reset %s", x.mode)
+		x.mk(0, false)
+		orders := 3 // the orders made of long arithmetic runs
+		if !c.bulk {
+			orders = 5
+		}
+		// move the size of map 0 to target along plan (grow: the next keys of plan; drain: the keys of plan that
+		// are still stored, in plan order), stopping for a full observation at every point of lgPoints
+		grow := func(plan []int, from, target, small int) {
+			at := from
+			for _, p := range lgPoints(target, small, false) {
+				if p > at {
+					x.run(0, plan, at, p, false, c.bulk)
+					at = p
+				}
+			}
+		}
+		drain := func(order, target, small int) {
+			id := x.ids[0]
+			have := len(x.keys[id])
+			// the stored keys in the order of the plan
+			cur := append([]int(nil), x.keys[id]...)
+			if x.mode == "rev" {
+				for i, j := 0, len(cur)-1; i < j; i, j = i+1, j-1 {
+					cur[i], cur[j] = cur[j], cur[i]
+				}
+			}
+			idx := c04plan(g, have, 1, order) // 2i+1 -> position i of cur
+			plan := make([]int, have)
+			for i, v := range idx {
+				plan[i] = cur[(v-1)/2]
+			}
+			pts := lgPoints(have, small, false)
+			done := 0
+			for i := len(pts) - 1; i >= 0; i-- {
+				if pts[i] < have-done && pts[i] >= target {
+					nd := have - pts[i]
+					x.run(0, plan, done, nd, true, c.bulk)
+					done = nd
+				}
+			}
+			x.run(0, plan, done, have-target, true, c.bulk)
+		}
+		look := func() {
+			ks := x.keys[x.ids[0]]
+			if len(ks) == 0 {
+				return
+			}
+			x.emit("first 0 0")
+			x.emit("itnext 0")
+			x.emit("itprev 0")
+			x.emit("itprev 0")
+			x.emit("last 1 0")
+			x.emit("itprev 1")
+			x.emit("itnext 1")
+			x.emit("itnext 1")
+			at := []int{len(ks) / 2, len(ks) - 1, 0, len(ks) / 3}
+			if len(ks) > 1500 {
+				at = at[:2] // every line prints the whole map
+			}
+			for _, i := range at {
+				x.emit("seek 2 0 %d", ks[i]-1)
+				x.emit("seek 2 0 %d", ks[i])
+				x.emit("itnext 2")
+				x.emit("itprev 2")
+				x.emit("itprev 2")
+				x.emit("getok 0 %d", ks[i]+1)
+				x.emit("get 0 %d", ks[i])
+			}
+			x.its[0], x.its[1], x.its[2] = x.ids[0], x.ids[0], x.ids[0]
+			x.old[0], x.old[1], x.old[2] = false, false, false
+			// replace the value of a stored key (in div10 mode through an equivalent key), then look again
+			k := ks[len(ks)/2]
+			if x.mode == "div10" {
+				k += 3
+			}
+			x.set(0, k)
+			x.emit("itread 2")
+			x.emit("seek 2 0 %d", k)
+		}
+		plan := c04plan(g, N+8, step, (ci+off)%orders)
+		grow(plan, 0, N, 12)
+		look()
+		x.emit("copy 1 0")
+		x.ids[1] = x.ids[0]
+		x.set(1, plan[N]) // through the copy
+		x.del(1, plan[N])
+		drain((ci+off/2)%orders, g.Intn(4), 40)
+		look()
+		x.emit("delete 0 %d", -7)
+		// carry-over: regrow to a half, drain below a quarter, regrow past N, Clear, use again
+		id := x.ids[0]
+		rest := func() []int { // the keys of plan that are not stored, in plan order
+			var out []int
+			for _, k := range plan {
+				if _, ok := x.find(id, k); !ok {
+					out = append(out, k)
+				}
+			}
+			return out
+		}
+		r := rest()
+		have := len(x.keys[id])
+		x.run(0, r, 0, N/2+1-have, false, c.bulk)
+		x.emit("len 0")
+		drain((ci+off/3+1)%orders, max(N/4-1, 1), 12)
+		look()
+		r = rest()
+		have = len(x.keys[id])
+		x.run(0, r, 0, min(len(r), N+3-have), false, c.bulk)
+		look()
+		x.emit("clear 0")
+		x.keys[id] = nil
+		x.edited(id)
+		x.emit("itread 0")
+		x.run(0, plan, 0, 33+g.Intn(8), false, false)
+		drain(g.Intn(orders), 0, 40)
+		x.emit("len 1")
+		g.Each(x.ops)
+	}
+}
+
 func genC04(g *G) {
+	genC04Large(g)
 	cases := g.Scale(1500, 20000)
 	maxOps := g.Scale(90, 400)
 	for c := 0; c < cases; c++ {
